@@ -75,6 +75,15 @@ theorem Inv.step {c : Nat} {s s' : St} (h : Inv c s) (l : Label)
       · exact Or.inl (by simp [h])
       · exact Or.inr h
 
+  | otherCopyDst x =>
+    simp only [Faults.step] at hs; injection hs with hs; subst hs
+    refine ⟨i1, ?_, i3, ?_, ?_⟩
+    · intro c' hp; exact ⟨(i2 c' hp).1, by simp [(i2 c' hp).2]⟩
+    · intro hp; exact ⟨by simp [(i4 hp).1], (i4 hp).2⟩
+    · intro hp; rcases i5 hp with h | h
+      · exact Or.inl h
+      · exact Or.inr (by simp [h])
+
 /-- **Conservation (repaired MOVE).** Under every schedule of the mover's own steps, a cancellation at
 any boundary, and other sessions appending or expunging other messages: the moved message is never
 outside both mailboxes; once the MOVE has completed it is in the destination and not in the source. -/
@@ -165,6 +174,7 @@ theorem C14_multiappend_atomic_partial (m : Nat) (box : List Nat) (ls : List Lab
                       · simp at hs2
                     · injection hs2 with hs2; subst hs2; exact ha
                     · injection hs2 with hs2; subst hs2; exact ha
+                    · injection hs2 with hs2; subst hs2; exact ha
               have := mono ls _ s rfl hr'
               rw [this] at ht; simp at ht
             · simp at hst
@@ -176,6 +186,7 @@ theorem C14_multiappend_atomic_partial (m : Nat) (box : List Nat) (ls : List Lab
             · simp at hst
           | otherExpunge x => simp only [astep] at hst; injection hst with hst; subst hst; exact ih2 _ s h1 h2 (by simpa using hr') ht
           | otherAppend x => simp only [astep] at hst; injection hst with hst; subst hst; exact ih2 _ s h1 h2 (by simpa using hr') ht
+          | otherCopyDst x => simp only [astep] at hst; injection hst with hst; subst hst; exact ih2 _ s h1 h2 (by simpa using hr') ht
     exact gen (l :: ls) ⟨box, [m], true⟩ s rfl rfl hs htodo
 
 end Pymap.C14
